@@ -5,7 +5,7 @@
    about the code. *)
 From Boltons Require Import Lib.Prelude Lib.C07_Str Spec.C07_Spec Gen.C07_Gen Model.C07_Model
      Check.C07_Check Proofs.C07_StrLemmas Proofs.C07_Rds Proofs.C07_Resolve Proofs.C07_Parse
-     Proofs.C07_Navigate Proofs.C07_Text.
+     Proofs.C07_Navigate Proofs.C07_Text Proofs.C07_Query.
 Open Scope N_scope.
 
 (* ---- split inverts the rendering of a rooted path ---------------------------------------- *)
@@ -104,6 +104,36 @@ Proof.
   rewrite (navigate_url_rootify _ d2 Wn1 W2). apply str_eqb_refl.
 Qed.
 
+(* the pair list after the second navigation *)
+Lemma navigate_url_result_query_rootify u d : wf_base u -> wf_ref d \/ wf_base d ->
+  query (parse (to_text (navigate_url u d))) = query (parse (to_text (navigate_url (rootify u) d))).
+Proof.
+  intros W [Wd|Wd]; unfold navigate_url.
+  - rewrite (wf_ref_relative d Wd), (nav_result_query u d W Wd),
+      (nav_result_query _ d (rootify_wf u W) Wd), nav_query_rootify. reflexivity.
+  - rewrite (wf_base_absolute d Wd). reflexivity.
+Qed.
+
+Lemma query_second_step n1 d2 : wf_base n1 -> wf_ref d2 \/ wf_base d2 ->
+  spec_query (to_text (rootify n1)) (to_text d2) (to_text (navigate_url n1 d2)) = true.
+Proof.
+  intros Wn1 W2.
+  pose proof (rootify_wf _ Wn1) as Wr. destruct (base_facts _ Wr) as (_ & _ & _ & _ & Tr & Ur).
+  apply (spec_query_step _ (uri_of (rootify n1)) (rootify n1) d2);
+    [rewrite Tr; apply (parse_recompose _ Ur) | exact Wr | | exact W2 | apply navigate_url_result_query_rootify; assumption].
+  intro Wd. exists (uri_of (navigate_rel (rootify n1) d2)). split; [apply nav_transform; assumption|].
+  apply nav_uri_query; assumption.
+Qed.
+
+Theorem navigate_url_query_chain b d1 d2 : wf_base b -> wf_ref d1 \/ wf_base d1 -> wf_ref d2 \/ wf_base d2 ->
+  spec_query_chain (to_text b) (to_text d1) (to_text d2)
+                   (to_text (navigate_url (navigate_url b d1) d2)) = true.
+Proof.
+  intros Wb W1 W2. pose proof (navigate_url_wf b d1 Wb W1) as Wn1.
+  unfold spec_query_chain. rewrite (navigate_url_target b d1 Wb W1), <- (rootify_text _ Wn1).
+  apply query_second_step; assumption.
+Qed.
+
 Theorem normalize_spec b : wf_base b ->
   spec_normalized (to_text b) (to_text (normalize b)) (to_text (normalize (normalize b))) = true.
 Proof.
@@ -140,10 +170,10 @@ Proof.
   unfold c07_holds, record_obs. cbv zeta.
   cbn [c_obs c_ref1 c_ref2 o_before o_nav1 o_nav1_again o_after o_nav2 o_nb1 o_nb2 o_nr1 o_nr2].
   rewrite (base_in_domain_wf b Wb), (ref_in_domain_wf d1 W1), (ref_in_domain_wf d2 W2).
-  rewrite (navigate_url_refines_rfc b d1 Wb W1).
+  rewrite (navigate_url_refines_rfc b d1 Wb W1), (navigate_url_query b d1 Wb W1).
   rewrite (spec_clean_wf _ Wn1 (navigate_url_clean b d1 Wb W1)).
   rewrite !str_eqb_refl.
-  rewrite (navigate_url_chain b d1 d2 Wb W1 W2).
+  rewrite (navigate_url_chain b d1 d2 Wb W1 W2), (navigate_url_query_chain b d1 d2 Wb W1 W2).
   rewrite (spec_clean_wf _ Wn2 (navigate_url_clean _ d2 Wn1 W2)).
   rewrite (normalize_spec b Wb), normalize_idem, str_eqb_refl. reflexivity.
 Qed.
